@@ -111,3 +111,14 @@ Section WithSchema.
     && subset (c_tunables sc) (c_emit_attrs sc)             (* every documented tunable is written *)
     && subset (c_required sc) (c_params sc).
 End WithSchema.
+
+(* ---- simulation classes: what the restart path (ASE's encoder calls todict) writes, what the constructor takes *)
+Record sschema := { s_id : nat; s_registered : bool; s_has_todict : bool; s_has_from_dict : bool; s_writes_atoms : bool;
+                    s_required : list nat;            (* constructor parameters without default (atoms apart) *)
+                    s_accepted : list nat;            (* every keyword the constructor chain accepts *)
+                    s_emit_kwargs : list nat;         (* keys written under "kwargs" *)
+                    s_emitted : list nat;             (* every key written: kwargs, attributes, context, rng_state *)
+                    s_settings : list nat }.          (* simulation-level settings the class owns *)
+Definition restart_ok (sc : sschema) : bool :=
+  s_registered sc && s_has_todict sc && s_has_from_dict sc && s_writes_atoms sc
+  && subset (s_required sc) (s_emit_kwargs sc) && subset (s_emit_kwargs sc) (s_accepted sc) && subset (s_settings sc) (s_emitted sc).
